@@ -75,8 +75,11 @@ def build(repo):
     f, types, cuts = common.asm_types(repo)
     ac = f.fn("append_code", within="AssemblyCode")
     cuts.append(ac)
+    common.r24_inline_closures(ac)
+    nsw = common.r15_starts_with_lit(ac)
+    ac.sub(r"\bl\.clone\(\)", "string_clone(l)", "R11 String::clone -> shim", expect=(0, 4))
     fm = common.Fmt({"l": ("str", "l"), "inst.dasm_operand": ("str", "&inst.dasm_operand"), "inline_counter": ("int", None)})
-    fm.apply(ac, expect=(2, 2))
+    fm.apply(ac, expect=(1, 8))
     ac.sub(r"\bi\.clone\(\)", "clone_line(i)", "R-clone (A-clone shim; body is the original call)", expect=(1, 3))
     ac.set_header("""pub fn append_code(&mut self, code: &AssemblyCode, inline_counter: u32)
         ensures
@@ -105,7 +108,7 @@ def build(repo):
                 }
             }
 """)
-    text = common.PRELUDE + common.header_comment(NAME, cuts) + "verus! {\n" + types + common.DEC_SPECS + SPECS + fm.text() + \
+    text = common.PRELUDE + common.header_comment(NAME, cuts) + "verus! {\n" + types + common.DEC_SPECS + SPECS + common.STR_PREFIX_SHIM + fm.text() + \
         "impl AssemblyCode {\n" + ac.text + "\n}\n" + common.CANARY + "\n} // verus!\n"
     u.text[None] = text
     u.rewrites = common.collect_rewrites(cuts)
